@@ -101,7 +101,7 @@ func HC02_unionWireFormat() {
 	n := 1 + vfChoice("members", 2)
 	var names []string
 	for i := 0; i < n; i++ {
-		nm := "M" + vfString(fmt.Sprint("member", i), 1, vfParam("C02.member", 2), "alnum")
+		nm := vfString(fmt.Sprint("member", i), 1, vfParam("C02.member", 2), "ident") // exported or not
 		for _, o := range names {
 			vfAssume(o != nm)
 		}
